@@ -580,6 +580,41 @@ func genTypedProgram(r *RNG, model *CfgModel, userClasses []*GClass, n int) []*t
 		w := last.ty
 		add(&tStmt{Text: "dbtp " + last.name, Kind: "probe", Want: &w, RetKind: "literal"})
 	}
+	// unions of three and four classes, built by widening a two-class union (a value union
+	// wider than the declared union it is passed to is still accepted when every variant is)
+	if r.Chance(1, 2) {
+		var us []*tVarRef
+		for _, v := range vars {
+			if len(v.ty.Atoms) == 2 && !v.ty.Unknown && len(v.ty.Elem) == 0 {
+				us = append(us, &tVarRef{v.name, v.ty})
+			}
+		}
+		if len(us) > 0 {
+			cur := us[r.Intn(len(us))]
+			for k := 0; k < 1+r.Intn(2); k++ {
+				c := Pick(r, classes)
+				has := c == "Array"
+				for _, a := range cur.ty.Atoms {
+					if a == c {
+						has = true
+					}
+				}
+				if has {
+					continue
+				}
+				lc, _ := valueOf(c)
+				nv := newVar(mt(append(append([]string{}, cur.ty.Atoms...), c)...))
+				if r.Bool() {
+					add(&tStmt{Text: fmt.Sprintf("%s = flag ? %s : %s", nv.name, cur.name, lc), Kind: "assign-union"})
+				} else {
+					add(&tStmt{Text: fmt.Sprintf("%s = flag ? %s : %s", nv.name, lc, cur.name), Kind: "assign-union"})
+				}
+				w := nv.ty
+				add(&tStmt{Text: "dbtp " + nv.name, Kind: "probe", Want: &w, RetKind: "literal"})
+				cur = &tVarRef{nv.name, nv.ty}
+			}
+		}
+	}
 	// a union of two configured classes that both declare the same method
 	// more than once (generated configurations: ov0 of the first two classes)
 	var ovs []string
@@ -1014,6 +1049,17 @@ func genTypedProgram(r *RNG, model *CfgModel, userClasses []*GClass, n int) []*t
 				lb, _ := literalOfClass(r, b)
 				uv := newVar(mt(a, b))
 				add(&tStmt{Text: fmt.Sprintf("%s = flag ? %s : %s", uv.name, la, lb), Kind: "assign-union"})
+				// ... or of three or four: wider than any union the declaration spells out
+				for k := 0; k < 2 && r.Bool(); k++ {
+					c := Pick(r, scalarClasses)
+					if contains(uv.ty.Atoms, c) {
+						continue
+					}
+					lc, _ := literalOfClass(r, c)
+					wv := newVar(mt(append(append([]string{}, uv.ty.Atoms...), c)...))
+					add(&tStmt{Text: fmt.Sprintf("%s = flag ? %s : %s", wv.name, uv.name, lc), Kind: "assign-union"})
+					uv = wv
+				}
 				argTexts = append(argTexts, uv.name)
 				argTypes = append(argTypes, uv.ty)
 			case want != nil && len(want.Atoms) > 0 && want.Elem == nil && !r.Chance(1, 5):
@@ -1220,6 +1266,11 @@ func genTypedProgram(r *RNG, model *CfgModel, userClasses []*GClass, n int) []*t
 		}
 	}
 	return stmts
+}
+
+type tVarRef struct {
+	name string
+	ty   MT
 }
 
 func recvKind(t MT) string {
